@@ -239,8 +239,8 @@ def run(ctx):
     ctx.units("long-lookahead-runs", unit_long_runs, [{"lengths": list(range(0, 34)) + [64, 128, 129, 256, 257] + ([] if q else [1024, 1025, 4096]), "shard": i, "nshards": 16} for i in range(16)], procs=16)
     ctx.units("long-lookahead-text", unit_long_text, [{"lengths": list(range(0, 20)) + [31, 32, 33, 64, 128, 256] + ([] if q else [1000, 3000])}])
     ctx.units("after-aborted-parse", unit_prev_combos, [{}])
-    ctx.units("real-text", unit_noisy, [{"n": 500 if q else 8000, "seed": ctx.seed, "shard": i} for i in range(4 if q else 16)], procs=16)
-    ctx.units("model-token-listings", unit_listing, [{"n": 400 if q else 5000, "seed": ctx.seed, "shard": i} for i in range(4 if q else 16)], procs=16)
+    ctx.units("real-text", unit_noisy, [{"n": 750 if q else 8000, "seed": ctx.seed, "shard": i} for i in range(8 if q else 16)], procs=16)
+    ctx.units("model-token-listings", unit_listing, [{"n": 600 if q else 5000, "seed": ctx.seed, "shard": i} for i in range(8 if q else 16)], procs=16)
     ctx.exhaustive = False
     ctx.extra["exhaustive_part"] = "after each of %d prefixes, all sequences of length <= %d over %r" % (len(PREFIXES), L, SYMS)
     ctx.rule = ("(a) token-kind sequences (stub scanner/matcher, real parser, recording builder) after 5 prefixes, all continuations up to the bound; "
